@@ -205,6 +205,12 @@ func ParamAtoms() []ParamAtom {
 			add("query.array.multi-of-csv.integer.required", in, J{"type": "array", "collectionFormat": "multi", "items": J{"type": "array", "collectionFormat": "csv", "items": J{"type": "integer"}}}, true, nil)
 		}
 	}
+	// header names as specs spell them: not in the canonical MIME form Go's net/http stores them under
+	for _, hn := range []string{"X-Request-ID", "ETag", "x-trace-level", "X-API-KEY", "Content-MD5", "x_under_score", "WWW-Authenticate-2"} {
+		add("header.name="+hn+".string.required", "header", J{"type": "string", "minLength": n("2")}, true, J{"name": hn})
+		add("header.name="+hn+".integer.max.optional", "header", J{"type": "integer", "maximum": n("9")}, false, J{"name": hn})
+		add("header.name="+hn+".array.csv.default", "header", J{"type": "array", "items": J{"type": "string"}, "default": []any{"a", "b"}}, false, J{"name": hn})
+	}
 	// formData file
 	add("formData.file.required", "formData", J{"type": "file"}, true, nil)
 	add("formData.file.optional", "formData", J{"type": "file"}, false, nil)
